@@ -265,11 +265,16 @@ def _frontend_fallback(pid, r, tier, seed):
         import witness
         import runner as _runner
         uo = getattr(r, 'unit_obj', None)
+        fns = None
         if uo is None:
             import importlib
             ud = props.UNITS[r.unit]
-            uo = getattr(importlib.import_module(ud.get('module', r.unit)), ud.get('builder', 'build'))()
-        fns = [k for k, c in uo.fn_contracts.items() if not c.stub] + [k for k, c in uo.fn_contracts.items() if c.stub]
+            try:
+                uo = getattr(importlib.import_module(ud.get('module', r.unit)), ud.get('builder', 'build'))()
+            except Exception:
+                fns = list(ud.get('fallback_keys', []))
+        if fns is None:
+            fns = [k for k, c in uo.fn_contracts.items() if not c.stub] + [k for k, c in uo.fn_contracts.items() if c.stub]
         seen_ops = set()
         for fn in fns:
             ops = tuple(witness.ops_for(fn))
